@@ -248,6 +248,43 @@ def ref_homothety(op: Any, x: Any) -> list[np.ndarray]:
     return [k * l for l in np_leaves(x)]
 
 
+# ---- result dtypes (NumPy/JAX promotion of the stored parameters with each leaf) --------------------
+
+
+def _same(op: Any, leaf: Any, i: int) -> Any:
+    return leaf.dtype
+
+
+def _promoted_with(name: str, attr: str | None = None) -> Callable[[Any, Any, int], Any]:
+    def rule(op: Any, leaf: Any, i: int) -> Any:
+        import jax.numpy as jnp
+        o = op.operator if type(op).__name__ == 'DiagonalInverseOperator' else op
+        v = P(o, name, attr)
+        if not hasattr(v, 'dtype'):
+            vs = jax.tree.leaves(v)
+            if len(vs) <= i or not hasattr(vs[i], 'dtype'):
+                return None
+            v = vs[i] if len(vs) > 1 else vs[0]
+        if type(op).__name__ == 'DiagonalInverseOperator' and not np.issubdtype(np.dtype(v.dtype), np.inexact):
+            return None
+        return jnp.result_type(v, leaf)
+    return rule
+
+
+def _toeplitz_dtype(op: Any, leaf: Any, i: int) -> Any:
+    return leaf.dtype if np.issubdtype(np.dtype(leaf.dtype), np.floating) else None
+
+
+DTYPE_RULES: dict[str, Callable[[Any, Any, int], Any]] = {
+    'IndexOperator': _same, 'PackOperator': _same, 'MoveAxisOperator': _same, 'RavelOperator': _same, 'ReshapeOperator': _same,
+    'ReshapeTransposeOperator': _same, 'HomothetyOperator': _same, 'HWPOperator': _same,
+    'DiagonalOperator': _promoted_with('diagonal', '_diagonal'), 'BroadcastDiagonalOperator': _promoted_with('diagonal', '_diagonal'),
+    'DiagonalInverseOperator': _promoted_with('diagonal', '_diagonal'),
+    'DenseBlockDiagonalOperator': _promoted_with('blocks'),
+    'SymmetricBandToeplitzOperator': _toeplitz_dtype,
+}
+
+
 MODELS: dict[str, tuple[str, Callable[[Any, Any], list[np.ndarray]]]] = {
     'HomothetyOperator': ('C02', ref_homothety),
     'IndexOperator': ('C12', ref_index),
